@@ -2,8 +2,8 @@
 From Coq Require Import ExtrOcamlBasic.
 From Coq Require Extraction.
 From Coq Require Import NArith List.
-From Muscle Require Import Gen.Consts Pat.Ere Pat.Translate Pat.Simple Pat.SimpleParse.
+From Muscle Require Import Gen.Consts Pat.Ere Pat.Translate Pat.Simple Pat.SimpleParse Pat.RangeParse.
 Extraction "pat_model.ml" sm_init set_pattern sm_reset sm_assign sm_recycle set_negate matches
   is_unique is_uvlist escape unescape has_regex_tokens can_match_multiple regex_string
-  regex_supported ere_engine ere_compile ere_exec sparse
+  regex_supported ere_engine ere_compile ere_exec sparse read_ranges
   seg_set_pattern seg_match seg_unique seg_supported path_put path_matches path_supported path_depth.
